@@ -2,7 +2,7 @@
    This is what the OCaml driver calls; each command evaluates model functions on a case that the
    Python harness also runs on the rebuilt implementation. *)
 From OptreeModel Require Export Wire Flatten Unflatten Spec Ops Registry Pickle Accessor.
-From OptreeModel Require Ravel Dataclass Typing.
+From OptreeModel Require Ravel Dataclass Typing Faults.
 
 Definition bad : sexp := SL [SI 2].   (* undecodable input: a harness error, never a verdict *)
 
@@ -263,6 +263,25 @@ Definition cmd_traits (l : list Z) : sexp :=
   | _ => bad
   end.
 
+(* cmd 14: flatten with a fault injected at the k-th callback (k = 0: no fault) *)
+Definition cmd_fault (c : cfg) (o : obj) (k : Z) : sexp :=
+  let fault := if Z.eqb k 0 then None else Some (Z.to_nat k) in
+  match Faults.flatf c fault (S (c_limit c)) 0 o with
+  | Ok (ls, ns, _, n) => SL [SI 0; enc_objs ls; enc_nat n; enc_nat (length ns)]
+  | Err e => enc_err e
+  end.
+
+(* cmd 15: what the key sort does when comparisons raise *)
+Definition dec_cmp_exn (z : Z) : Faults.cmp_exn :=
+  if Z.eqb z 0 then Faults.CNoExn else if Z.eqb z 1 then Faults.CTypeError else Faults.COther z.
+Definition cmd_sort_fault (a b : Z) : sexp :=
+  match Faults.sort_decide (dec_cmp_exn a) (dec_cmp_exn b) with
+  | Faults.SSorted1 => SL [SI 0; SI 1]
+  | Faults.SSorted2 => SL [SI 0; SI 2]
+  | Faults.SInsertion => SL [SI 0; SI 3]
+  | Faults.SRaise e => SL [SI 1; SI 10; SI e]
+  end.
+
 Definition run (s : sexp) : sexp :=
   match s with
   | SL [SI 1; c; o] =>
@@ -330,5 +349,11 @@ Definition run (s : sexp) : sexp :=
     | Some l => cmd_traits l
     | None => bad
     end
+  | SL [SI 14; c; o; SI k] =>
+    match dec_cfg c, dec_obj o with
+    | Some c', Some o' => cmd_fault c' o' k
+    | _, _ => bad
+    end
+  | SL [SI 15; SI a; SI b] => cmd_sort_fault a b
   | _ => bad
   end.
